@@ -437,18 +437,20 @@ def run(chk):
             chk.sample({'files': nfiles, 'lang': lang, 'multi_file': multi, 'fresh_processes': len(results), 'cpu_sets': reps, 'distinct_outputs': 1})
     # ---- (b2) every back end's configuration tables and per-item decorators, repeated fresh processes (fresh hash seeds): a
     # HashMap / HashSet iterated while emitting shows only when it holds two or more entries (seeded C06_f: Swift's default generic
-    # constraints collected into a HashSet and printed in its iteration order for parameters that carry swiftGenericConstraints)
+    # constraints collected into a HashSet and printed in its iteration order for parameters that carry swiftGenericConstraints;
+    # seeded C06_h: type_mappings keys folded to their last path segment while rebuilding the map - of the three `..::Duration` keys,
+    # which on the unchanged code match nothing, the one inserted last won)
     RICH_SRC = ('#[typeshare(swift = "Equatable, Hashable, Comparable")]\n#[typeshare(swiftGenericConstraints = "T: Equatable & Hashable, U: Comparable")]\n'
                 'pub struct Page<T, U> { pub items: Vec<T>, pub extra: Option<U>, pub user_id: String, pub callback_url: Url, pub at: DateTime, pub data: Vec<u8> }\n'
                 '#[typeshare]\n#[typeshare(swiftGenericConstraints = "K: Hashable")]\n#[serde(tag = "t", content = "c")]\npub enum Event<K> { A(K), B { api_id: u32, raw: Vec<u8> }, C }\n'
-                '#[typeshare]\n#[typeshare(swift = "Sendable")]\npub enum Kind { IdOnly, UrlOnly }\n#[typeshare]\npub type Ids<T> = Vec<T>;\n#[typeshare]\npub struct Plain { pub uuid: Uuid, pub html: String }\n')
+                '#[typeshare]\n#[typeshare(swift = "Sendable")]\npub enum Kind { IdOnly, UrlOnly }\n#[typeshare]\npub type Ids<T> = Vec<T>;\n#[typeshare]\npub struct Plain { pub uuid: Uuid, pub html: String, pub timeout: Duration, pub waits: Vec<chrono::Duration> }\n')
     RICH_CFG = ('[swift]\nprefix = "OP"\ndefault_decorators = ["Sendable", "Identifiable", "CustomStringConvertible"]\ndefault_generic_constraints = ["Sendable", "Identifiable", "CustomStringConvertible"]\n'
-                'codablevoid_constraints = ["Equatable", "Hashable", "Sendable"]\n[swift.type_mappings]\n"Url" = "URL"\n"DateTime" = "Date"\n"Uuid" = "UUID"\n'
-                '[kotlin]\npackage = "com.p"\nprefix = "OP"\n[kotlin.type_mappings]\n"Url" = "String"\n"DateTime" = "String"\n"Uuid" = "String"\n'
-                '[scala]\npackage = "com.p"\n[scala.type_mappings]\n"Url" = "String"\n"DateTime" = "String"\n"Uuid" = "String"\n'
-                '[typescript.type_mappings]\n"Url" = "string"\n"DateTime" = "Date"\n"Uuid" = "string"\n"Vec<u8>" = "Uint8Array"\n'
-                '[go]\npackage = "p"\nuppercase_acronyms = ["ID", "URL", "API", "UUID", "HTML"]\n[go.type_mappings]\n"Url" = "string"\n"DateTime" = "time.Time"\n"Uuid" = "string"\n"Vec<u8>" = "[]byte"\n'
-                '[python.type_mappings]\n"Url" = "AnyUrl"\n"DateTime" = "datetime"\n"Uuid" = "str"\n"Vec<u8>" = "bytes"\n')
+                'codablevoid_constraints = ["Equatable", "Hashable", "Sendable"]\n[swift.type_mappings]\n"std::time::Duration" = "Double"\n"chrono::Duration" = "TimeInterval"\n"time::Duration" = "Int64"\n"Url" = "URL"\n"DateTime" = "Date"\n"Uuid" = "UUID"\n'
+                '[kotlin]\npackage = "com.p"\nprefix = "OP"\n[kotlin.type_mappings]\n"std::time::Duration" = "Long"\n"chrono::Duration" = "Double"\n"time::Duration" = "String"\n"Url" = "String"\n"DateTime" = "String"\n"Uuid" = "String"\n'
+                '[scala]\npackage = "com.p"\n[scala.type_mappings]\n"std::time::Duration" = "Long"\n"chrono::Duration" = "Double"\n"time::Duration" = "String"\n"Url" = "String"\n"DateTime" = "String"\n"Uuid" = "String"\n'
+                '[typescript.type_mappings]\n"std::time::Duration" = "number"\n"chrono::Duration" = "string"\n"time::Duration" = "DurationDto"\n"Url" = "string"\n"DateTime" = "Date"\n"Uuid" = "string"\n"Vec<u8>" = "Uint8Array"\n'
+                '[go]\npackage = "p"\nuppercase_acronyms = ["ID", "URL", "API", "UUID", "HTML"]\n[go.type_mappings]\n"std::time::Duration" = "int64"\n"chrono::Duration" = "float64"\n"time::Duration" = "string"\n"Url" = "string"\n"DateTime" = "time.Time"\n"Uuid" = "string"\n"Vec<u8>" = "[]byte"\n'
+                '[python.type_mappings]\n"std::time::Duration" = "int"\n"chrono::Duration" = "float"\n"time::Duration" = "str"\n"Url" = "AnyUrl"\n"DateTime" = "datetime"\n"Uuid" = "str"\n"Vec<u8>" = "bytes"\n')
     rich = work / 'rich'
     (rich / 'lib' / 'src').mkdir(parents=True)
     (rich / 'lib' / 'src' / 'lib.rs').write_text(RICH_SRC)
